@@ -23,6 +23,14 @@ def build(v):
         return T.Range(start=build(v[1]), end=build(v[2]))
     if k == "loc":
         return T.Location(uri=v[1], range=build(v[2]))
+    if k == "duck":
+        # an object of an UNRELATED type that exposes the same attributes with equal values (structural look-alike)
+        import types as _t
+        x = build(v[1])
+        if v[1][0] == "loc" and len(v) > 2 and v[2] == "lsp":
+            return T.CallHierarchyItem(name="n", kind=T.SymbolKind.File, uri=x.uri, range=x.range, selection_range=x.range)
+        names = {"pos": ("line", "character"), "rng": ("start", "end"), "loc": ("uri", "range")}[v[1][0]]
+        return _t.SimpleNamespace(**{n: getattr(x, n) for n in names})
     if k == "other":
         return Other()
     if k == "none":
